@@ -208,6 +208,15 @@ def cli_cases(ctx, n):
             c["cores"] = 2
             c["buffer_size"] = 4000        # (must hold the longest record twice over: dnaio refuses smaller buffers with an OverflowError)
         cases.append(c)
+    _judge_cli(ctx, cases)
+
+
+def _replay_cli(ctx, case):
+    _judge_cli(ctx, [case])
+
+
+def _judge_cli(ctx, cases):
+    import pipe
     for case, res, real, model in pipe.run_cases(ctx, cases):
         ctx.count("cli")
         if "error" in real:
@@ -269,5 +278,18 @@ def extended_search(ctx):
 
 
 def replay(ctx, rp):
-    print("re-run the check; failure recorded:", (rp.get("failure") or {}).get("input"))
+    inp = (rp.get("failure") or {}).get("input") or {}
+    if "argv" in inp and "reads1" in inp:
+        # a command-line case: run it again and compare with the definition
+        import pipe
+        argv = inp["argv"]
+        opt = next((o for o in ("--poly-a", "--trim-n", "--max-n", "--max-ee", "--max-aer") if o in argv), None)
+        val = argv[argv.index(opt) + 1] if opt in ("--max-n", "--max-ee", "--max-aer") else None
+        case = dict(argv=argv, paired=False, reads1=[tuple(r) for r in inp["reads1"]], reads2=None, with_qual=True, interleaved_in=False, c14=(opt, val))
+        if inp.get("cores"):
+            case["cores"], case["buffer_size"] = inp["cores"], 4000
+        _replay_cli(ctx, case)
+        print("oracle failures:", [f.signature for f in ctx.failures])
+        return 1 if ctx.failures else 0
+    print("re-run the check; failure recorded:", inp)
     return 2
